@@ -6,10 +6,12 @@ claimed = {
  "C01": ("Proved for all inputs, precisions, modes, signs and aliasings: round() returns RoundSpec (the arithmetic definition of rounding, written from the property statement) of its input mantissa; Add/Sub return RoundSpec of the exact sum/difference, Mul of the exact product (via the assumed dec.mul/sqr value contract), Quo of the Euclidean quotient with sticky remainder and enough digits (ghost witnesses, DESIGN.md 10.3); Set/SetPrec/Neg/Abs likewise; under/overflow to +-0/+-Inf; index/nil/frame safety of the whole cone.",
          "assumed: ucmp.ensures[value] (clause assumed), dec.mul/sqr/div value contracts, assembly kernels (contract of the _g twin); one paper step for Quo (DESIGN.md 10.3); operand size bounds (len <= 10^7 words, exponent gap <= 10^9)"),
  "C02": ("Proved: acc component of RoundSpec for Set/SetPrec/setExpAndRound, under/overflow accuracy, Exact on cancellation and special values, setters SetInt64/SetUint64/NewDecimal/SetMantExp range clauses.", "same assumed clauses as C01"),
- "C03": ("Proved: FMA special-value table, zero-sum sign rule, ErrNaN iff invalid, operands unchanged, validity, for every aliasing of z with x, y, u. The single-rounding value clause is not yet stated; the product-out-of-exponent-range case is excluded by a precondition and recorded as a known finding.", "requires[prodrange], requires[range] size bounds; Add/umul contracts"),
+ "C03": ("Proved for every aliasing of z with x, y, u: the exact product (ghost gMp*10^gqp, tied to Mx*My by ensures[prod]) plus u is rounded once (fmaspec = RoundSpec of the exact sum/difference), the u == 0 shortcut equals Mul, special-value table, zero-sum sign rule, ErrNaN iff invalid, operands unchanged, validity. Domain: requires[prodrange] (product exponent inside the int32 range); outside it FMA is wrong - an open known finding kept visible by a bounded run.", "requires[prodrange], requires[range] size bounds; Add/umul contracts"),
  "C04": ("Proved: IEEE special-value tables of Add/Sub/Mul/Quo/FMA/Set/Neg/Abs/SetInf, `panics ErrNaN iff invalid operation`, receiver valid on the exceptional exit, and unreachability of every other panic site (index, slice, nil, division, explicit panic) in the functions under contract.", "functions not under contract (Sqrt, formatting, parsing, Float conversions, Karatsuba/division internals) are not covered by the no-other-panic half"),
- "C06": ("Proved: functional correctness of the word kernels (_g), mulAddWW, divW, add, sub, shl; index safety and frames of those. dec.mul, dec.sqr, dec.div are under assumed contracts (Karatsuba, Knuth D, recursive division are not yet within reach).", "dec.mul/sqr/div assumed"),
- "C07": ("Proved: every portable Go kernel (_g) satisfies its value contract (the mathematical definition) for all inputs and lengths, including the in-place/overlap layouts the library uses. The assembly bodies are not yet verified: their contracts are the same text but assumed.", "assembly routines assumed to satisfy the contract of their _g twin"),
+ "C05": ("Proved: Sqrt(+-0) = +-0, Sqrt(+Inf) = +Inf, ErrNaN exactly for negative operands (incl. -Inf), precision rule, the receiver's rounding mode is preserved, the operand is not modified, the result is canonical - given the assumed frame/shape contract of sqrtInverse. The claim that the root is correctly rounded is a Newton-iteration error analysis that no contract within reach expresses: it is checked by BOUNDED execution against an exact integer oracle (evidence.coverage.bounded) and is in fact false - recorded as a known finding (off by one unit in the last place, also for perfect squares under directed modes).",
+         "sqrtInverse assumed; rounding clause bounded only (known finding one-ulp)"),
+ "C06": ("Proved: functional correctness of the word kernels (_g), mulAddWW, divW, add, sub, shl; index safety and frames of those; Mul/Quo are the exact product / Euclidean quotient rounded once GIVEN the value contracts of dec.mul, dec.sqr, dec.div. Those three contracts (Karatsuba, Knuth D, recursive division) are not within reach of the VC generator: they are assumed by callers and validated by BOUNDED execution against math/big for operand lengths up to 260 words and six threshold tunings (evidence.coverage.bounded).", "dec.mul/sqr/div assumed"),
+ "C07": ("Proved: every portable Go kernel (_g) satisfies its value contract (the mathematical definition) for all inputs and lengths, including the in-place/overlap layouts the library uses. The assembly bodies are not within reach (no assembly front end was built): each is compared with its _g twin by BOUNDED differential execution (lengths 0..9, edge-word combinations, all shifts, overlapping layouts, canaries; evidence.coverage.bounded), also under the pure-Go build tags.", "assembly routines assumed to satisfy the contract of their _g twin"),
  "C08": ("Proved: valid(z) (canonical form) is a postcondition of every mutator under contract, on normal and ErrNaN exits, given valid operands.", "round.ensures[shape] assumed; GobDecode, Sqrt, parsers not under contract yet"),
  "C09": ("Proved: precision rule, mode unchanged, operands unchanged (all fields and mantissa words) for every operation under contract, all aliasings.", "operations not under contract: Sqrt, SetInt, SetRat, SetFloat*, SetString/Parse, GobDecode"),
  "C10": ("Corollary: every result-determining postcondition (C01/C02/C03 clauses) is proved with pointers, slice headers, stale buffer contents and the receiver's previous value unconstrained, so results are functions of operand values, precision and mode only.", "same assumed clauses as C01"),
@@ -22,7 +24,6 @@ claimed = {
  "C20": ("Proved: SetBitsExp (sign, zero, exactness, saturation, no int64 wrap), BitsExp, MantExp, SetMantExp (value preserved, zero/inf exactly when the exponent sum leaves the range).", "round clause assumed; size bounds"),
 }
 na = {
- "C05": "Sqrt is not under contract yet; its correct-rounding claim needs a Newton-iteration error analysis no contract within reach expresses (DESIGN.md section 5, C05)",
  "C11": "text round trip needs a denotation of byte sequences through strconv/bytes/io interfaces; recursive sequence functions are outside what the solvers decide here (DESIGN.md section 6)",
  "C12": "parsers are not under contract yet (io.ByteScanner model not built); agreement with math/big's grammar has no contract-expressible oracle",
  "C13": "oracle is the layout behaviour of fmt/strconv; a contract could only restate the implementation (DESIGN.md section 6)",
